@@ -35,6 +35,8 @@ pub enum Ctor {
     DegreeU8(u8),
     DegreeUsize(usize),
     Commit { nblind: usize, deg: usize },
+    /// generators whose public fields were set by hand: `bases` >= deg masking bases present, declared degree `deg`
+    CommitSurplus { nblind: usize, deg: usize, bases: usize },
 }
 
 fn grid<E: Engine>(ctx: &RunCtx) -> Vec<Ctor> {
@@ -132,6 +134,13 @@ fn grid<E: Engine>(ctx: &RunCtx) -> Vec<Ctor> {
     for deg in 1..=6 {
         for nblind in 0..=8 {
             v.push(Ctor::Commit { nblind, deg });
+        }
+    }
+    for deg in 1..=5 {
+        for bases in deg + 1..=6 {
+            for nblind in 0..=7 {
+                v.push(Ctor::CommitSurplus { nblind, deg, bases });
+            }
         }
     }
     v
@@ -292,6 +301,32 @@ pub fn oracle<E: Engine>(_ctx: &RunCtx, c: &Ctor, log: &mut CaseLog) -> Result<(
                 }
             }
         },
+        Ctor::CommitSurplus { nblind, deg, bases } => {
+            // the declared degree decides, not the number of bases that happen to be present
+            let want = *nblind >= 1 && nblind <= deg;
+            expect_ok = want;
+            let mut pc = E::pedersen(*bases);
+            pc.extension_degree = ext_of(*deg);
+            let mut rng = chacha(*nblind as u64 * 11 + *deg as u64 * 3 + *bases as u64);
+            let v = rand_scalar(&mut rng);
+            let r: Vec<Scalar> = (0..*nblind).map(|_| rand_scalar(&mut rng)).collect();
+            let got = guarded(|| E::commit(&pc, &v, &r))?;
+            if got.is_ok() != want {
+                return Err(format!(
+                    "commit with {} blinding factors under declared degree {} ({} masking bases present) is {} but the documented domain says {}",
+                    nblind,
+                    deg,
+                    bases,
+                    okerr(got.is_ok()),
+                    okerr(want)
+                ));
+            }
+            if let Ok(cm) = got {
+                if cm != Stmt::<E::P>::commit(&pc.h_base, &pc.g_base_vec, &v, &r) {
+                    return Err("commit does not equal value*h + sum blinding_k*g_k".into());
+                }
+            }
+        },
     }
     log.label(format!("engine={}", E::NAME));
     log.label(format!("ctor:{}:{}", kind, if expect_ok { "Ok" } else { "Err" }));
@@ -345,7 +380,7 @@ pub fn def() -> PropertyDef {
                0..=17 x promise counts 0..=17 x seed {absent, ordinary, zero scalar, one} x capacity {1,2,4,8,16}; RangeWitness::init for the empty vector and every vector \
                of 1-4 openings with blinding counts 0..=8 each, plus shapes containing 9..300 blinding factors; \
                CommitmentOpening::r_len 0..=8; ExtendedMask::assign degree 1..=6 x length 0..=8; ExtensionDegree::try_from for all 256 u8 values \
-               and usize in {0..=300, 2^(8k)+i, usize::MAX-5, usize::MAX}; commit with 0..=8 blinding factors x degree 1..=6 (both engines). \
+               and usize in {0..=300, 2^(8k)+i, usize::MAX-5, usize::MAX}; commit with 0..=8 blinding factors x degree 1..=6 (both engines), and with generators whose fields were set by hand so that more masking bases are present than the declared degree (the declared degree decides). \
                proptest adds random usize bit lengths / capacities / degrees. Oracle: Ok/Err equals an independently written predicate from the \
                doc comments; on Ok the getters / fields return the inputs unchanged; Err is an Err, not a panic. Non-trivial = every grid point \
                (each is a distinct call)."
